@@ -55,6 +55,40 @@ CHECKS["C06"] = dict(
     ref="DESIGN.md section 7 C06",
 )
 
+CHECKS["C01"] = dict(
+    module="KVStore",
+    technique="TLA+ model checking of the kv store's file-system protocol (TLC, kill between any two operations incl. recovery) + trace validation of the real kv store: every seam operation observed, crash image after every operation reopened by the real recovery code",
+    text=("KVStore has one action per file-system operation of the kv store (OPTIONS replace, MANIFEST create / "
+          "append+sync, CURRENT.tmp write, rename, manifest and table removal, table create / close) and models the "
+          "code's quirk that a logged next-file-number moves the manifest number. TLC explores all histories of "
+          "create-family / flush / move+merge compaction / rollup marks with up to two kills anywhere (2.2M states) and "
+          "checks: recovered versions = committed versions, no partial table visible, content = what committed flushes "
+          "wrote, the store always reopens, no file number reused. The real store runs with all its I/O seams wrapped: "
+          "each operation must be the next one the specification allows with exactly the logged record, the directory "
+          "is copied after every operation and reopened by the real recovery (also a kill during recovery), whose "
+          "projection must equal the model. Crash points x histories is what the property quantifies over."),
+    note=("Trusted: TLC, Json module, the seam wrappers and directory copier (kill = completed file-system operations "
+          "survive, user-space buffers are lost; no power loss / torn single write), the edit-log decoder export. "
+          "One writer at a time in these histories (concurrency is C02)."),
+    ref="DESIGN.md section 7 C01",
+)
+CHECKS["C02"] = dict(
+    module="KVStore",
+    technique="TLA+ model checking of readers/flusher/compaction/cleanup interleavings (TLC) + trace validation of the real family under a seeded gate scheduler whose gates are the file-system seams",
+    text=("MCKVReaders instantiates KVStore with two readers, a flusher, a level-0 compaction holding its own snapshot "
+          "and two obsolete-file cleanups split exactly like family.deleteObsoleteFiles (list, collect pending, collect "
+          "active versions, collect rollup files, remove); TLC explores all interleavings (2.6M states): files of open "
+          "snapshots, of the current version and live rollup files always exist, and every removal the code would "
+          "perform is one the specification's guard allows. The real family is driven by readers, a flusher, "
+          "Family.Compact and extra cleanups under a seeded scheduler that parks threads at the seams; snapshot reads "
+          "must equal the content at acquisition, a fresh snapshot must show every completed commit, and no removal "
+          "may hit a file that the model still holds live."),
+    note=("Trusted as C01 plus the gate scheduler. Interleavings of the real code are sampled at seam granularity "
+          "(table create, manifest append, directory listing, table removal, reader steps); the collect order inside "
+          "deleteObsoleteFiles is covered by the model only."),
+    ref="DESIGN.md section 7 C02",
+)
+
 NOT_YET = {
 }
 
